@@ -111,6 +111,16 @@ ServerAlphabetFor(names) == \* sent TO a server; names: mechanism attribute valu
 ShapedClient == {Item(kk, pp, "") : kk \in {"challenge", "success"}, pp \in Shapes}
                 \cup {Item("failure", pp, "") : pp \in {q \in Shapes : Len(q) <= 2}}
 ShapedServer == {Item("auth", pp, "M1") : pp \in Shapes} \cup {Item("response", pp, "") : pp \in Shapes}
+(* Real multi-step mechanisms: the receiver's i-th message of the mechanism travels   *)
+(* in a <challenge/> or in a <success/> - chosen independently of what the mechanism *)
+(* makes of the message (wants more / is complete) - and after the last message the  *)
+(* receiver sends a tail of further (empty) elements, one whenever the initiator     *)
+(* reads; then the byte stream ends.  n = 0: a mechanism without receiver messages   *)
+(* (PLAIN), n = 2: the SCRAM family.                                                 *)
+AnswerKinds == {"challenge", "success"}
+Tails == {<<>>, <<"success">>, <<"failure">>, <<"challenge">>, <<"challenge", "success">>,
+          <<"success", "success">>, <<"failure", "success">>}
+KindPlans(n) == [n : {n}, kinds : [1..n -> AnswerKinds], tail : Tails]
 (*  foreign  = an element outside the SASL namespace                                *)
 (*  xsuccess, xchallenge, xauth, xresponse = elements outside the SASL namespace    *)
 (*             that are NAMED like SASL elements (another SASL profile's namespace, *)
@@ -131,7 +141,9 @@ VARIABLES
   stepIdx,      \* steps made on the current negotiator
   mechDone,     \* the last step returned more = false without error
   mechErr,      \* the last step returned an error
-  successSeen,  \* client: the peer has sent <success/>
+  successSeen,  \* client: the peer has signalled success for the exchange as it stands: a <success/>
+                \* after which the mechanism has not gone on
+  earlySuccess, \* client: a <success/> has been seen on which the mechanism went on (a premature one)
   permitted,    \* server: "none" | "yes" | "no": verdicts of the permission callback for the
                 \* current negotiator
   authn,        \* the Authn bit has been returned
@@ -141,7 +153,7 @@ VARIABLES
 (* role and local are the FEATURE VALUE (what xmpp.SASL / xmpp.SASLServer were given: the    *)
 (* mechanisms, credentials and the permission callback); an application builds it once and  *)
 (* negotiates every connection with it.  Everything else belongs to one session.            *)
-vars == <<role, local, adv, pc, selected, stepIdx, mechDone, mechErr, successSeen, permitted,
+vars == <<role, local, adv, pc, selected, stepIdx, mechDone, mechErr, successSeen, earlySuccess, permitted,
           authn, npeer, sess>>
 
 -----------------------------------------------------------------------------
@@ -162,14 +174,14 @@ Running == pc \notin {"done", "fail"}
 Abort ==
   /\ Running
   /\ pc' = "fail"
-  /\ UNCHANGED <<sess, role, local, adv, selected, stepIdx, mechDone, mechErr, successSeen, permitted,
+  /\ UNCHANGED <<sess, role, local, adv, selected, stepIdx, mechDone, mechErr, successSeen, earlySuccess, permitted,
                  authn, npeer>>
 
 (* The Authn mask is returned.                                                      *)
 Finish ==
   /\ pc = "finish"
   /\ authn' = TRUE /\ pc' = "done"
-  /\ UNCHANGED <<sess, role, local, adv, selected, stepIdx, mechDone, mechErr, successSeen, permitted, npeer>>
+  /\ UNCHANGED <<sess, role, local, adv, selected, stepIdx, mechDone, mechErr, successSeen, earlySuccess, permitted, npeer>>
 
 (* The session is over (authenticated or failed); the next connection is negotiated *)
 (* with the same feature value.  Nothing of the previous exchange survives: every   *)
@@ -180,9 +192,9 @@ NewSession(A) ==
   /\ adv' = (IF role = "client" THEN A ELSE <<>>)
   /\ authn' = FALSE /\ npeer' = 0
   /\ IF "KeepStateAcrossSessions" \in Dev
-     THEN UNCHANGED <<selected, stepIdx, mechDone, mechErr, successSeen, permitted>>
+     THEN UNCHANGED <<selected, stepIdx, mechDone, mechErr, successSeen, earlySuccess, permitted>>
      ELSE /\ selected' = None /\ stepIdx' = 0 /\ mechDone' = FALSE /\ mechErr' = FALSE
-          /\ successSeen' = FALSE /\ permitted' = "none"
+          /\ successSeen' = FALSE /\ earlySuccess' = FALSE /\ permitted' = "none"
   /\ UNCHANGED <<role, local>>
 
 -----------------------------------------------------------------------------
@@ -194,19 +206,19 @@ CSelect(m) ==
   /\ role = "client" /\ pc = "c_select"
   /\ m \in ToSet(local) \cap ToSet(adv)
   /\ selected' = m /\ pc' = "c_start"
-  /\ UNCHANGED <<sess, role, local, adv, stepIdx, mechDone, mechErr, successSeen, permitted, authn, npeer>>
+  /\ UNCHANGED <<sess, role, local, adv, stepIdx, mechDone, mechErr, successSeen, earlySuccess, permitted, authn, npeer>>
 
 CStart(more, err) ==
   /\ role = "client" /\ pc = "c_start"
   /\ Step(more, err)
   /\ pc' = (IF err THEN "fail" ELSE "c_auth")
-  /\ UNCHANGED <<sess, role, local, adv, selected, successSeen, permitted, authn, npeer>>
+  /\ UNCHANGED <<sess, role, local, adv, selected, successSeen, earlySuccess, permitted, authn, npeer>>
 
 (* <auth mechanism=selected/> is written                                            *)
 CAuth ==
   /\ role = "client" /\ pc = "c_auth"
   /\ pc' = (IF mechDone THEN "c_final" ELSE "c_loop")
-  /\ UNCHANGED <<sess, role, local, adv, selected, stepIdx, mechDone, mechErr, successSeen, permitted,
+  /\ UNCHANGED <<sess, role, local, adv, selected, stepIdx, mechDone, mechErr, successSeen, earlySuccess, permitted,
                  authn, npeer>>
 
 (* The receiver signals success with <success/>, empty or holding base64 (RFC 6120   *)
@@ -226,7 +238,7 @@ CRecvFinal(x) ==
      THEN /\ successSeen' = successSeen
           /\ pc' \in {"fail", "c_final"} \cup (IF "MalformedSuccessCounts" \in Dev THEN {"finish"} ELSE {})
      ELSE successSeen' = successSeen /\ pc' = "fail"
-  /\ UNCHANGED <<sess, role, local, adv, selected, stepIdx, mechDone, mechErr, permitted, authn>>
+  /\ UNCHANGED <<sess, role, local, adv, selected, stepIdx, mechDone, mechErr, earlySuccess, permitted, authn>>
 
 (* The mechanism wants more: <challenge/> and <success/> payloads are handed to it  *)
 (* (what a session hands to the mechanism for a payload it cannot decode, if it goes *)
@@ -238,20 +250,29 @@ CRecvLoop(x) ==
      THEN /\ successSeen' = (successSeen \/ SuccessSignal(x))
           /\ pc' \in (IF MayBeRefused(x) THEN {"c_step", "fail"} ELSE {"c_step"})
      ELSE successSeen' = successSeen /\ pc' = "fail"
-  /\ UNCHANGED <<sess, role, local, adv, selected, stepIdx, mechDone, mechErr, permitted, authn>>
+  /\ UNCHANGED <<sess, role, local, adv, selected, stepIdx, mechDone, mechErr, earlySuccess, permitted, authn>>
 
 (* After a step: an error fails; more => next round; done => authenticated only if  *)
 (* the peer has signalled success, otherwise its <success/> is still to come.  The  *)
 (* session may also insist on a further <success/> (the property allows both).      *)
+(* A <success/> on which the mechanism goes on was PREMATURE: it says nothing about *)
+(* the exchange that is completed later ("premature or repeated success ... never   *)
+(* produces an authenticated session"), so it is no longer the receiver's signal    *)
+(* once the step has returned more - the signal has to come with the element on     *)
+(* which the mechanism completes, or after it.  Whatever element kinds the          *)
+(* mechanism's messages travel in: kind and step are independent.                   *)
 CStep(more, err) ==
   /\ role = "client" /\ pc = "c_step"
   /\ Step(more, err)
+  /\ successSeen' = (successSeen /\ ~more /\ ~err)
+  /\ earlySuccess' = (earlySuccess \/ (successSeen /\ more))
   /\ pc' \in (IF err THEN {"fail"}
               ELSE IF more THEN {"c_loop"}
               ELSE IF successSeen THEN {"finish", "c_final"}
               ELSE IF "ExitWithoutSuccess" \in Dev THEN {"finish"}
+              ELSE IF earlySuccess /\ "PrematureSuccessCounts" \in Dev THEN {"finish"}   \* a flag that is only ever set
               ELSE {"c_final"})
-  /\ UNCHANGED <<sess, role, local, adv, selected, successSeen, permitted, authn, npeer>>
+  /\ UNCHANGED <<sess, role, local, adv, selected, permitted, authn, npeer>>
 
 -----------------------------------------------------------------------------
 (* Receiving side (negotiateServer)                                                 *)
@@ -259,7 +280,7 @@ CStep(more, err) ==
 SAdvertise(L) ==
   /\ role = "server" /\ pc = "s_adv"
   /\ adv' = L /\ pc' = "s_read"
-  /\ UNCHANGED <<sess, role, local, selected, stepIdx, mechDone, mechErr, successSeen, permitted,
+  /\ UNCHANGED <<sess, role, local, selected, stepIdx, mechDone, mechErr, successSeen, earlySuccess, permitted,
                  authn, npeer>>
 
 StepOrFail(x) == IF MayBeRefused(x) THEN {"s_step", "fail"} ELSE {"s_step"}
@@ -282,13 +303,13 @@ SRecv(x) ==
             pc' = "fail" /\ UNCHANGED <<selected, stepIdx, mechDone, mechErr, permitted>>
        [] OTHER ->
             pc' = "s_read" /\ UNCHANGED <<selected, stepIdx, mechDone, mechErr, permitted>>
-  /\ UNCHANGED <<sess, role, local, adv, successSeen, authn>>
+  /\ UNCHANGED <<sess, role, local, adv, successSeen, earlySuccess, authn>>
 
 (* The mechanism consults the application's permission callback during a step.     *)
 SPerm(v) ==
   /\ role = "server" /\ pc = "s_step"
   /\ permitted' = (IF v /\ permitted # "no" THEN "yes" ELSE "no")
-  /\ UNCHANGED <<sess, role, local, adv, pc, selected, stepIdx, mechDone, mechErr, successSeen, authn, npeer>>
+  /\ UNCHANGED <<sess, role, local, adv, pc, selected, stepIdx, mechDone, mechErr, successSeen, earlySuccess, authn, npeer>>
 
 (* After a step: an error ends this attempt; more => <challenge/> and next round;   *)
 (* done => authenticated only if the callback accepted the credentials.             *)
@@ -299,7 +320,7 @@ SStep(more, err) ==
             ELSE IF more THEN "s_read"
             ELSE IF permitted = "yes" \/ "SkipPermission" \in Dev THEN "finish"
             ELSE "fail")
-  /\ UNCHANGED <<sess, role, local, adv, selected, successSeen, permitted, authn, npeer>>
+  /\ UNCHANGED <<sess, role, local, adv, selected, successSeen, earlySuccess, permitted, authn, npeer>>
 
 -----------------------------------------------------------------------------
 (* Bounded environment of the design check                                          *)
@@ -317,7 +338,7 @@ Init ==
      THEN adv \in OrderedSublists(Mechs \cup {Unk}) /\ pc = "c_select"
      ELSE adv = <<>> /\ pc = "s_adv"
   /\ selected = None /\ stepIdx = 0 /\ mechDone = FALSE /\ mechErr = FALSE
-  /\ successSeen = FALSE /\ permitted = "none" /\ authn = FALSE /\ npeer = 0 /\ sess = 1
+  /\ successSeen = FALSE /\ earlySuccess = FALSE /\ permitted = "none" /\ authn = FALSE /\ npeer = 0 /\ sess = 1
 
 StepChoice(A(_, _)) ==
   /\ stepIdx < MaxSteps
@@ -353,5 +374,5 @@ C03_AuthnStable == [][authn /\ sess' = sess => authn']_vars
 (* session): every session is authenticated only by its own completed, accepted exchange.   *)
 C03_SessionFresh ==
   [][sess' # sess => /\ selected' = None /\ stepIdx' = 0 /\ ~mechDone' /\ ~mechErr'
-                     /\ ~successSeen' /\ permitted' = "none" /\ ~authn']_vars
+                     /\ ~successSeen' /\ ~earlySuccess' /\ permitted' = "none" /\ ~authn']_vars
 =============================================================================
